@@ -56,6 +56,16 @@ class Schema:
 
             f_id = field_def["id"]
             f_name = field_def["name"]
+            # Field ids key the column statistics of every data file, and manifests
+            # store those keys as strings: the ids 1 and "1" are different here (so
+            # the duplicate test below lets them through) but collide there, the
+            # bounds of one column land under the other column's id, and filtered
+            # scans silently drop matching rows. Only plain integers are field ids.
+            if isinstance(f_id, bool) or not isinstance(f_id, int):
+                raise ValueError(
+                    f"Invalid schema: field id {f_id!r} of field '{f_name}' is not an integer "
+                    f"({type(f_id).__name__}). Field ids must be integers."
+                )
             if f_id in seen_ids:
                 raise ValueError(
                     f"Invalid schema: duplicate field id {f_id} (field '{f_name}'). "
